@@ -413,6 +413,10 @@ class Ctx:
             return bool(d)
         return ddmin(ops, fails, keep_first)
 
+    def shrink(self, ops, fails, keep_first=1, budget=200):
+        """generic delta debugging: `fails(ops) -> bool` re-runs whatever exhibits the failure"""
+        return ddmin(ops, fails, keep_first, budget)
+
     def corpus(self, suffix=".ops"):
         """sessions stored under corpus/<pid>/ (run first)"""
         d = os.path.join(VERIF, "corpus", self.pid)
@@ -448,10 +452,19 @@ class Result:
 # known findings
 # --------------------------------------------------------------------------------------------
 def load_known():
-    p = os.path.join(VERIF, "KNOWN_FINDINGS.json")
-    if not os.path.exists(p):
-        return {"findings": [], "fixed": []}
-    return json.load(open(p))
+    """KNOWN_FINDINGS.json plus per-component files findings.d/*.json (same format); committed,
+    never written at run time"""
+    res = {"findings": [], "fixed": []}
+    paths = [os.path.join(VERIF, "KNOWN_FINDINGS.json")]
+    d = os.path.join(VERIF, "findings.d")
+    if os.path.isdir(d):
+        paths += [os.path.join(d, f) for f in sorted(os.listdir(d)) if f.endswith(".json")]
+    for p in paths:
+        if os.path.exists(p):
+            j = json.load(open(p))
+            res["findings"] += j.get("findings", [])
+            res["fixed"] += j.get("fixed", [])
+    return res
 
 
 # --------------------------------------------------------------------------------------------
